@@ -26,7 +26,7 @@ ASSUMPTIONS = ['equations over N constants and one binary symbol; all merge orde
                'PYTHONHASHSEED pinned']
 RULE = 'one evaluation = one merge order of one equation set (with all interleaved queries); distinct = distinct (set, order); non-trivial = at least one f-equation'
 EXPLANATION = 'for each history prefix z3 decides entailment of every pair in EUF; the closure\'s answers and explanations must agree for every order'
-BUDGET_S = {'quick': 240, 'thorough': 1500}
+BUDGET_S = {'quick': 240, 'thorough': 900}
 
 
 def bounds(tier):
